@@ -159,7 +159,9 @@ func producerLemmaAfter(idx int, p string, eventsMayFail bool, before int) {
 			verifrt.Assert("C14/producer/event-failure-implies-error", verifrt.Implies(evFailed, !ok))
 		}
 		if isDeposit {
-			verifrt.Assert("C14/deposit/success-needs-debit-and-burn", verifrt.Implies(ok, verifrt.All(len(bank) == 1, len(burns) == 1, !depFailed)))
+			verifrt.Assert("C14/deposit/success-needs-debit-and-burn", verifrt.Implies(ok, verifrt.All(len(bank) == 1, len(burns) == 1, !depFailed,
+				// ... and on the transaction's own state, not on a branch that is thrown away
+				h.Env.Marked("bank_0"), h.Env.Marked("burn_0"))))
 			// late validation failures after the funds moved still report an error
 			late := verifrt.Any(h.SendPaused, h.MaxBody < 132, !callerOK, verifrt.IsZero(h.MsgrAddr))
 			verifrt.Assert("C14/deposit/late-failure-implies-error", verifrt.Implies(late, !ok))
